@@ -223,3 +223,45 @@ GENERATORS.update({
     'nbdime.diff_format.MappingDiffBuilder.validated': gen_map_validated,
     'nbdime.diff_format.MappingDiffBuilder.append': gen_map_append,
 })
+
+
+_PREDS = [operator.__eq__, lambda x, y: type(x) is type(y), lambda x, y: True]
+
+
+def gen_compute_snakes():
+    "lists over 3 atoms of length <= 3, every sub-rectangle, three predicates (exact, same type, always)"
+    items = [0, 1, 'a']
+    for A in _seqs(items, 3):
+        for B in _seqs(items[:2], 2):
+            for f in _PREDS:
+                for i0 in range(len(A) + 1):
+                    for i1 in range(i0, len(A) + 1):
+                        for j0 in range(len(B) + 1):
+                            yield [list(A), list(B), f, (i0, j0, i1, len(B))]
+
+
+def gen_snakes_multilevel():
+    items = [0, 1, 'a', 'b']
+    for A in _seqs(items, 3):
+        for B in _seqs(items[:3], 3):
+            for compares in ([_PREDS[0]], [_PREDS[1], _PREDS[0]], [_PREDS[2], _PREDS[1], _PREDS[0]]):
+                yield [list(A), list(B), list(compares)]
+
+
+def gen_snakes_multilevel_rect():
+    items = [0, 1, 'a']
+    for A in _seqs(items, 3):
+        for B in _seqs(items, 2):
+            for compares in ([_PREDS[1], _PREDS[0]], [_PREDS[2], _PREDS[1], _PREDS[0]]):
+                for level in range(len(compares)):
+                    for i0 in range(len(A) + 1):
+                        for j0 in range(len(B) + 1):
+                            yield [list(A), list(B), list(compares), (i0, j0, len(A), len(B)), level]
+                            yield [list(A), list(B), list(compares), (0, 0, i0, j0), level]
+
+
+GENERATORS.update({
+    'nbdime.diffing.snakes.compute_snakes': gen_compute_snakes,
+    'nbdime.diffing.snakes.compute_snakes_multilevel': gen_snakes_multilevel,
+    'nbdime.diffing.snakes.compute_snakes_multilevel#rect': gen_snakes_multilevel_rect,
+})
